@@ -41,8 +41,10 @@ PY_O = {'pyflags': ['-O']}
 
 def skip_under_config(index):
     """Basic.RecoverAsync warns (DeprecationWarning) in its constructor by
-    design; with warnings escalated to errors that class cannot even be
-    constructed, so it is left out of those shards."""
+    design; with warnings escalated to errors the *caller* cannot construct
+    that class, so encode-side workloads leave it out of those shards.
+    Decode-side workloads do not: a frame sent by the peer is not the
+    caller's use of a deprecated method (D18)."""
     return CONFIG.get('warnings') == 'error' and index == RECOVER_ASYNC
 
 
